@@ -150,6 +150,19 @@ func restorePieces(
 	} else if err != nil {
 		return nil, 0, fmt.Errorf("get or set piece metadata: %s", err)
 	}
+	if len(md.pieces) != numPieces {
+		// The status file is created and written in two steps, so a crash in between leaves it empty.
+		// A status vector of the wrong length describes no piece: start over with all pieces empty
+		// (zero complete pieces out of zero would otherwise count as a finished download).
+		pieces = pieces[:0]
+		for i := 0; i < numPieces; i++ {
+			pieces = append(pieces, &piece{status: _empty})
+		}
+		md = newPieceStatusMetadata(pieces)
+		if _, err := cads.Download().SetMetadata(d.Hex(), md); err != nil {
+			return nil, 0, fmt.Errorf("reset piece metadata: %s", err)
+		}
+	}
 	for _, p := range md.pieces {
 		if p.status == _complete {
 			numComplete++
